@@ -146,6 +146,17 @@ def same_value(a, b):
     return close(a, b, 1e-9)
 
 
+def raising_node_code(e):
+    """source line of the innermost DIP node object on the traceback (= which node failed to cast)"""
+    tb, found = e.__traceback__, None
+    while tb is not None:
+        code = getattr(tb.tb_frame.f_locals.get('self'), 'code', None)
+        if isinstance(code, str) and code.split():
+            found = code
+        tb = tb.tb_next
+    return found
+
+
 def numify(x):
     if isinstance(x, list):
         return [numify(y) for y in x]
@@ -204,6 +215,11 @@ def matches(obs, model, soft=False):
         sig = type(obs[1]).__name__ + ': ' + ' '.join(str(a) for a in obs[1].args[:1])
         if not any(s in sig for s in f.sigs):
             return False
+        code = raising_node_code(obs[1])
+        if f.who and code and code.split()[0] not in (f.who, f.who.split('.')[-1]):
+            return False
+        if f.line and code and code.strip() != f.line.strip():
+            return False
         if f.payload is not None and len(obs[1].args) >= 3 and obs[1].args[0] == 'Could not convert raw value to type:':
             line = obs[1].args[1]
             if f.who and isinstance(line, str) and line.split() and line.split()[0] != f.who.split('.')[-1]:
@@ -257,8 +273,8 @@ def judge(prog, obs, with_extra, devs, label):
     if exp['kind'] == 'fail':
         devs.append(dev('must-fail-accepted:' + extra['kind'], dict(variant=label, stmt=extra['stmt'], observed=describe(obs))))
     elif obs[0] == 'exc':
-        head = str(obs[1].args[0])[:60] if obs[1].args and isinstance(obs[1].args[0], str) else type(obs[1]).__name__
-        head = re.sub(r'[0-9]+', 'N', re.sub(r"'[^']*'", "'..'", head))
+        head = str(obs[1].args[0])[:90] if obs[1].args and isinstance(obs[1].args[0], str) else type(obs[1]).__name__
+        head = ' '.join(re.sub(r'[0-9]+', 'N', re.sub(r"'[^']*'?|<[^>]*>?", '', head)).split())[:48]
         devs.append(dev('valid-program-rejected: ' + head.strip().rstrip(':'), dict(variant=label, exc=exc_sig(obs[1]))))
     else:
         good, bad = split_unreadable(obs[1])
